@@ -30,6 +30,10 @@ const (
 	expressionPrecedenceUnknown expressionPrecedence = iota
 	// expressionPrecedenceTernary is the expressionPrecedence of
 	// - ConditionalExpression. right associative!
+	// - DestroyExpression
+	// - AttachExpression
+	//   (like the else-branch of a conditional expression,
+	//   their operand extends as far to the right as possible)
 	expressionPrecedenceTernary
 	// expressionPrecedenceLogicalOr is the expressionPrecedence of
 	// - BinaryExpression, with OperationOr
@@ -72,7 +76,6 @@ const (
 	// expressionPrecedenceUnaryPrefix is the expressionPrecedence of
 	// - UnaryExpression, with any other operation
 	// - CreateExpression
-	// - DestroyExpression
 	// - ReferenceExpression
 	expressionPrecedenceUnaryPrefix
 	// expressionPrecedenceUnaryPostfix is the expressionPrecedence of
@@ -95,7 +98,6 @@ const (
 	// - IdentifierExpression
 	// - FunctionExpression
 	// - PathExpression
-	// - AttachExpression
 	expressionPrecedenceLiteral
 )
 
